@@ -98,8 +98,9 @@ func dbHas(db ethdb.KeyValueReader, key []byte) bool {
 // H-C10-a: rolling the canonical head back over one block restores exactly the parent's Qi ledger.
 // Chain G <- A1 <- A2 with A2 current; A2 spent up to two outpoints and created up to two outputs,
 // where a created output may itself be one of the spent ones (created and spent inside A2) — the
-// solver decides which keys coincide — plus one accumulated (overwritten) and one newly created
-// coinbase-lockup record. The database holds the state after A2 and A2's undo records; the real
+// solver decides which keys coincide — plus one coinbase-lockup record accumulated (overwritten) once or twice and one newly created
+// record. The undo records are read back in the order Process wrote them (decided for the real
+// accessors in H-C10-c). The database holds the state after A2 and A2's undo records; the real
 // SetCurrentHeader(A1) runs its rollback loop. Afterwards every involved key is present iff it was
 // present before A2 (with its old value), A2's canonical-number entry is gone and the head pointer
 // and canonical hash name A1.
@@ -192,6 +193,12 @@ func VerifH_C10_a() {
 	if vBool("lockupAccumulated") {
 		db.Put(accKey, []byte{0x99})
 		undoDeletedLockups = append(undoDeletedLockups, &rawdb.DeletedCoinbaseLockup{Key: accKey, Value: oldRec})
+		if vBool("lockupAccumulatedTwice") {
+			// the same tranche was accumulated into again later in A2: the second undo record holds
+			// the intermediate value, the first one the value from before the block
+			vFact("case", "tranche-overwritten-twice-in-rolled-back-block")
+			undoDeletedLockups = append(undoDeletedLockups, &rawdb.DeletedCoinbaseLockup{Key: accKey, Value: vBytes("midLockupRecord", 2)})
+		}
 	}
 	if vBool("lockupCreated") {
 		db.Put(newKey, []byte{0x77})
@@ -216,7 +223,7 @@ func VerifH_C10_a() {
 	for _, c := range created {
 		vAssert("utxo/created-output-removed", !dbHas(db, rawdb.UtxoKey(c.TxHash, c.Index)))
 	}
-	if len(undoDeletedLockups) == 1 {
+	if len(undoDeletedLockups) >= 1 {
 		v, _ := db.Get(accKey)
 		vAssert("lockup/accumulated-record-restored", bytes.Equal(v, oldRec))
 	}
